@@ -246,7 +246,7 @@ fn check() {
     }
 
     let n = decodes.load(Ordering::Relaxed);
-    if n < 10_000 || outcomes.len() < 20 {
+    if chk.violation_count() == 0 && (n < 10_000 || outcomes.len() < 20) {
         machinery(format!("vacuous: decodes={n} outcomes={}", outcomes.len()));
     }
     let coverage = json!({
